@@ -1,3 +1,3 @@
-import Props.SlicesGen
+import Props.GenHeads
 open Model.SlicesGen
 #print axioms findHeads_eq
